@@ -1,4 +1,5 @@
 import QibProofs.Lemmas.CircuitMat
+import QibProofs.Lemmas.Simulator
 /-!
 C05 — All views of a circuit agree. **Matrix part**: the circuit matrix is the product of the embedded gate
 matrices in application order, append/prepend compose accordingly, gates are captured by value, first column has
@@ -146,6 +147,63 @@ theorem C05_col0_norm (gs : List (Placed α n)) (hu : ∀ p ∈ gs, p.g * p.gᴴ
   simpa [Matrix.mul_apply, Matrix.conjTranspose_apply] using this
 
 end norm
+
+/-! ### The statevector simulator returns the first column of the circuit matrix -/
+
+section sim
+variable {α : Type} [CommRing α] [DecidableEq α]
+
+/-- **`StatevectorSimulator.run` = column `|0…0⟩` of `Circuit.as_matrix`**: whenever the model of the simulator loop returns a
+state `psi` for a non-empty gate list (any length, any gates, any wire assignment), the circuit contains no control instruction,
+`Circuit.as_matrix(fields)` succeeds with some `P`, and `psi[i] = P[i, 0]` for every basis index `i`. -/
+theorem C05_svRun_eq_col0 (fields : List FieldSpec) (instrs : List (Instr α)) (hne : instrs ≠ [])
+    (psi : Vector α (2 ^ numWires fields)) (h : svRun fields instrs = .ok psi) :
+    (∀ i ∈ instrs, i ≠ Instr.ctrl) ∧ ∃ P, circuitMatrix fields instrs = .ok P ∧
+      ∀ i : Fin (2 ^ numWires fields), psi[i.1] = P.get i ⟨0, Nat.pos_of_ne_zero (by positivity)⟩ := by
+  obtain ⟨hc, Ms, hMs, hlen, hv⟩ := svLoop_spec fields instrs _ psi h
+  have hMne : Ms ≠ [] := by
+    intro h0; rw [h0] at hlen; exact hne (List.length_eq_zero_iff.mp hlen.symm)
+  obtain ⟨M, Ms', rfl⟩ := List.exists_cons_of_ne_nil hMne
+  refine ⟨hc, (Ms'.foldl (fun acc h => DMat.mul h acc) M), ?_, ?_⟩
+  · exact (circuitMatrix_eq_ok_iff fields instrs _).mpr ⟨M :: Ms', hMs, rfl⟩
+  · intro i
+    have hP := C05_circuitMatrix_eq_prod fields instrs _ ((circuitMatrix_eq_ok_iff fields instrs _).mpr ⟨M :: Ms', hMs, rfl⟩)
+    obtain ⟨Ms2, hMs2, _, hprod⟩ := hP
+    rw [hMs] at hMs2
+    cases hMs2
+    have := congrFun hv i
+    simp only [vecOf] at this
+    rw [this, ← hprod, vecOf_basis0]
+    simp [Matrix.mulVec, dotProduct, DMat.toMatrix]
+
+/-- conversely the simulator never fails on a gate-only circuit whose matrix exists -/
+theorem C05_svRun_total (fields : List FieldSpec) (instrs : List (Instr α)) (hc : ∀ i ∈ instrs, i ≠ Instr.ctrl)
+    (P : DMat α (2 ^ numWires fields)) (h : circuitMatrix fields instrs = .ok P) :
+    ∃ psi, svRun fields instrs = .ok psi := by
+  obtain ⟨Ms, hMs, _⟩ := (circuitMatrix_eq_ok_iff fields instrs P).mp h
+  have aux : ∀ (is : List (Instr α)) (v : Vector α (2 ^ numWires fields)) (Ms : List (DMat α (2 ^ numWires fields))),
+      (∀ i ∈ is, i ≠ Instr.ctrl) → gateMats fields is = .ok Ms → ∃ psi, svLoop fields v is = .ok psi := by
+    intro is
+    induction is with
+    | nil => intro v _ _ _; exact ⟨v, rfl⟩
+    | cons i is ih =>
+      intro v Ms hc hMs
+      cases i with
+      | ctrl => exact absurd rfl (hc _ (by simp))
+      | gate ps d g =>
+        simp only [gateMats] at hMs
+        cases hp : placedMat fields ps d g with
+        | error e => rw [hp] at hMs; simp at hMs
+        | ok M =>
+          rw [hp] at hMs
+          cases hg : gateMats fields is with
+          | error e => rw [hg] at hMs; simp at hMs
+          | ok Ms' =>
+            simp only [svLoop, hp]
+            exact ih (M.mulVec v) Ms' (fun j hj => hc j (by simp [hj])) hg
+  exact aux instrs _ Ms hc hMs
+
+end sim
 
 /-! ### Non-vacuity -/
 
